@@ -119,6 +119,36 @@ class Stats:
         self.unknown = 0
 
 
+def cross_check(samples, workdir, timeout_s=20):
+    """re-run sampled queries through the system z3 binary (4.8.12, a different build from the 5.1 wheel the engines use);
+    returns (checked, agreed, disagreements)"""
+    import os
+    import subprocess
+    import tempfile
+    checked = agreed = 0
+    bad = []
+    for smt2, res in samples:
+        fd, path = tempfile.mkstemp(suffix='.smt2', dir=workdir)
+        with os.fdopen(fd, 'w') as fh:
+            fh.write(smt2)
+        try:
+            r = subprocess.run(['/usr/bin/z3', '-T:%d' % timeout_s, path], capture_output=True, text=True, timeout=timeout_s + 10)
+            out = r.stdout.strip().split('\n')[0] if r.stdout.strip() else ''
+        except (subprocess.TimeoutExpired, FileNotFoundError):
+            out = 'timeout'
+        finally:
+            os.unlink(path)
+        if '(error' in r.stdout if out != 'timeout' else False:
+            continue            # the older solver could not parse the query: inconclusive, not a disagreement
+        if out in ('sat', 'unsat'):
+            checked += 1
+            if out == res:
+                agreed += 1
+            else:
+                bad.append({'engine_result': res, 'z3_4_8_12': out, 'query_head': smt2[:300]})
+    return checked, agreed, bad
+
+
 def is_concrete_int(v):
     return isinstance(v, int) and not isinstance(v, bool)
 
@@ -168,7 +198,10 @@ class Exec:
         self.seed = seed
         self.globals_init = {}
         self.trace = None
-        self.dump_queries = None  # list collecting (smt2, result) samples for cross-solver checks
+        self.sample_rng = None    # random.Random: when set, a reservoir sample of decided queries is kept for the cross-solver check
+        self.sample_size = 3
+        self.sample_seen = 0
+        self.samples = []
         self.exact_consts = False  # symbolic runs: literal/converted constants are exact Fractions (consistent with XR's exact reals)
         self._frag_stop = None
         self.sqrt_mode = 'exact'   # 'exact': s >= 0, s*s = x;  'monotone': order-only facts (keeps queries out of NRA when only comparisons matter)
@@ -200,8 +233,16 @@ class Exec:
         self.stats.solver_time += time.time() - t
         self.stats.queries += 1
         rs = str(r)
-        if self.dump_queries is not None and len(self.dump_queries) < 4000:
-            self.dump_queries.append((s, rs))
+        if self.sample_rng is not None and rs in ('sat', 'unsat'):
+            # reservoir sample of decided queries for the cross-solver check
+            self.sample_seen += 1
+            k = self.sample_size
+            if len(self.samples) < k:
+                self.samples.append((s.to_smt2(), rs))
+            else:
+                j = self.sample_rng.randrange(self.sample_seen)
+                if j < k:
+                    self.samples[j] = (s.to_smt2(), rs)
         if rs == 'unknown':
             self.stats.unknown += 1
         m = s.model() if (rs == 'sat' and want_model) else None
